@@ -57,7 +57,7 @@ class RefTable:
             r = dict(status='todo', try_count=0, level=0, parent_url=url, root_url=url,
                      inline_level=None, link_type=None, priority=0, post_data=None,
                      status_code=None, filename=None)
-            if props:
+            if props is not None:
                 r['parent_url'] = None
                 r['root_url'] = None
                 for k, v in props.items():
@@ -141,8 +141,13 @@ OPS_FULL = [
     ('getone', 'absent'),
     ('contains', 1),
     ('count',),
+    # property objects that leave out the parent and/or the root URL (what
+    # ItemSession.add_url(url) without properties builds)
+    ('add', [(2, P(), None)]),
+    ('add', [(1, P(level=2), None), (0, P(parent_url=U[1]), None)]),
 ]
-OPS_REDUCED = [OPS_FULL[i] for i in (0, 1, 2, 4, 7, 8, 10, 11, 12, 13, 14, 16, 18, 22, 23, 25, 27, 28, 33)]
+OPS_REDUCED = [OPS_FULL[i] for i in (0, 1, 2, 4, 7, 8, 10, 11, 12, 13, 14, 16, 18, 22, 23, 25, 27, 28, 33,
+                                     34, 35)]
 
 
 def url_of(x):
